@@ -32,7 +32,7 @@ from mc.core import Acc
 from mc.vloop import VLoop, tb_where
 from mc.explore import execute, explore
 from mc.ndnenv import FRONTENDS, owned_env, exc_class
-from mc.seams import key_der, pub_der, owned_random
+from mc.seams import key_der, pub_der, owned_random, fixed_now
 from mc.ref import tlv_strict as ts
 
 PROPERTY = 'C06'
@@ -239,7 +239,7 @@ def build_corpus():
     c['lp-nack-garbage'] = ts.tlv(0x64, ts.tlv(0x0320, ts.tlv(0x0321, b'\x96')) + ts.tlv(0x50, b'\x05\x03\x07\x01\x08'))
     c['lp-nack-no-fragment'] = ts.tlv(0x64, ts.tlv(0x0320, b''))
     c['unknown-type'] = ts.tlv(0x7e, b'abc')
-    with owned_random('c06-cert'):
+    with owned_random('c06-cert'), fixed_now():
         signer = Sha256WithEcdsaSigner('/id/KEY/1', key_der('ec256_0'))
         _, cert = self_sign(enc.Name.from_str('/id/KEY/1'), pub_der('ec256_0'), signer)
     c['certificate'] = bytes(cert)
